@@ -1583,3 +1583,94 @@ def run_fragall(prog, ctx=None):
                    "" if not bad else "when the head fragment is empty `%s` is reached without a look at %s->clen: data behind an empty first fragment is ignored" % (
                        norm(show(bad[0], f))[:40], list(mparams.values())[0]))
     return res
+
+
+def run_cursorpair(prog, ctx=None):
+    """CURSORPAIR: a cursor kept as the pair (X.base, X.used) of a local message moves in both members: when X.used is reduced
+    in a block that does not also move X.base, X.base is assigned again before it is read.  Consuming bytes through a side
+    pointer and then searching from the stale X.base re-reads what was consumed and misses the tail."""
+    res = Result("CURSORPAIR")
+    files = set(ctx.get("files", [])) if ctx else None
+    for f in funcs_of(prog, files):
+        # local structs with members base and used
+        cand = {}
+        for b, i, n in f.walk_all():
+            if n.get("k") == "mem" and not n.get("arrow") and n.get("f") in ("base", "used"):
+                x = strip(n["b"], lvalue_to_rvalue=False)
+                if x.get("k") == "ref" and x["d"].get("dk") == "local" and "id" in x["d"]:
+                    cand.setdefault(x["d"]["id"], [x["d"]["n"], set()])[1].add(n["f"])
+        cand = {k: v[0] for k, v in cand.items() if v[1] == {"base", "used"}}
+        if not cand:
+            continue
+
+        def member(n, fld):
+            n = strip(n, lvalue_to_rvalue=False)
+            if n.get("k") == "mem" and not n.get("arrow") and n.get("f") == fld:
+                x = strip(n["b"], lvalue_to_rvalue=False)
+                if x.get("k") == "ref" and x["d"].get("id") in cand:
+                    return x["d"]["id"]
+            return None
+
+        def block_effects(bid):
+            dec, mov = set(), set()
+            for e in f.blocks[bid].el:
+                for n in walk_own(e):
+                    if n.get("k") == "un" and n.get("op") == "--":
+                        v = member(n["e"], "used")
+                        if v is not None:
+                            dec.add(v)
+                    elif n.get("k") == "bin" and n.get("op") == "-=":
+                        v = member(n["a"], "used")
+                        if v is not None:
+                            dec.add(v)
+                    if n.get("k") == "bin" and n.get("op") in ("=", "+="):
+                        v = member(n["a"], "base")
+                        if v is not None:
+                            mov.add(v)
+                    # the whole struct handed to a callee that moves both (mpt_message_read(&X, ..))
+                    if n.get("k") == "call":
+                        for a in n.get("args", []):
+                            a = strip(a, all_casts=True)
+                            if a.get("k") == "un" and a.get("op") == "&":
+                                x = strip(a["e"], lvalue_to_rvalue=False)
+                                if x.get("k") == "ref" and x["d"].get("id") in cand:
+                                    mov.add(x["d"]["id"])
+            return dec, mov
+        eff = {bid: block_effects(bid) for bid in f.blocks}
+        # forward may-analysis: X is "behind" after a block that reduced used without moving base
+        inn = {b: set() for b in f.blocks}
+        changed = True
+        while changed:
+            changed = False
+            for bid in sorted(f.blocks, reverse=True):
+                dec, mov = eff[bid]
+                out = (inn[bid] - mov) | (dec - mov)
+                for sx in f.blocks[bid].succ:
+                    if sx is not None and not out <= inn[sx]:
+                        inn[sx] |= out
+                        changed = True
+        for vid, name in sorted(cand.items()):
+            bad = None
+            for bid in sorted(f.blocks, reverse=True):
+                if vid not in inn[bid]:
+                    continue
+                behind = True
+                for e in f.blocks[bid].el:
+                    for n in walk_own(e):
+                        if n.get("k") == "bin" and n.get("op") in ("=", "+=") and member(n["a"], "base") == vid:
+                            behind = False
+                        if n.get("k") == "call":
+                            for a in n.get("args", []):
+                                a = strip(a, all_casts=True)
+                                if a.get("k") == "un" and a.get("op") == "&" and strip(a["e"], lvalue_to_rvalue=False).get("d", {}).get("id") == vid:
+                                    behind = False
+                    if not behind:
+                        break
+                    for n in walk_own(e):
+                        if n.get("k") == "cast" and n.get("ck") == "LValueToRValue" and member(n["e"], "base") == vid:
+                            bad = bad or e
+                if bad:
+                    break
+            res.ob("%s:%s.base keeps up with %s.used" % (f.qn, name, name), bad is None, f, (bad.get("l") if bad else f.line) or f.line,
+                   "" if bad is None else "%s.used was reduced on a path to `%s` without moving %s.base: the read starts at bytes that were consumed already" % (name, norm(show(bad, f))[:60], name))
+    return res
